@@ -10,7 +10,8 @@
 (*   - command / entrypoint / healthcheck.test are replaced wholesale      *)
 (*   - keyed lists keep one entry per key, the later one winning, at the   *)
 (*     position of the first                                               *)
-(*   - string-or-list attributes (dns, tmpfs, env_file ...) append         *)
+(*   - string-or-list attributes (dns, tmpfs, label_file ...) append,      *)
+(*     env_file entries are keyed by path                                  *)
 (*   - depends_on / networks accept the list spelling on either side       *)
 (*   - logging options merge only for the same (or an unnamed) driver      *)
 (*   - ulimits entries are replaced                                        *)
@@ -43,6 +44,8 @@ Rules == <<
   [p |-> Svc(<<"profiles">>), r |-> "strlist-unique"],
   [p |-> Svc(<<"links">>), r |-> "strlist-unique"],
   [p |-> Svc(<<"expose">>), r |-> "strlist-unique"],
+  [p |-> Svc(<<"env_file">>), r |-> "keyed-envfile"],
+  [p |-> Svc(<<"label_file">>), r |-> "strlist"],
   [p |-> Svc(<<"depends_on">>), r |-> "depends_on"],
   [p |-> Svc(<<"networks">>), r |-> "networks"],
   [p |-> Svc(<<"build">>), r |-> "build"],
@@ -87,6 +90,7 @@ KeyOf(kind, e) ==
          IF IsM(e) THEN <<(IF Has(e, "host_ip") THEN Get(e, "host_ip").v ELSE ""), (IF Has(e, "published") THEN Get(e, "published").v ELSE ""),
                           Get(e, "target").v, (IF Has(e, "protocol") THEN Get(e, "protocol").v ELSE "tcp")>>
          ELSE <<"short", e.v>>
+    [] kind = "keyed-envfile" -> IF IsM(e) THEN Get(e, "path").v ELSE e.v
     [] kind = "keyed-target" -> IF IsM(e) THEN Get(e, "target").v ELSE <<"short", e.v>>
     [] kind = "keyed-mount-secret" -> IF IsM(e) THEN (IF Has(e, "target") THEN Get(e, "target").v ELSE "/run/secrets/" \o Get(e, "source").v) ELSE "/run/secrets/" \o e.v
     [] kind = "keyed-mount-config" -> IF IsM(e) THEN (IF Has(e, "target") THEN Get(e, "target").v ELSE "/" \o Get(e, "source").v) ELSE "/" \o e.v
@@ -115,7 +119,9 @@ Over(b, o, path) ==
   CASE r = "replace" -> o
     [] r = "kv" -> M(OverKV(ToKV(b), ToKV(o)))
     [] r = "strlist-unique" -> L(Uniq(ToList(b) \o ToList(o)))
+    [] r = "strlist" -> L(ToList(b) \o ToList(o))
     [] r \in {"keyed-port", "keyed-target", "keyed-mount-secret", "keyed-mount-config"} -> L(Dedup(r, b.v \o o.v))
+    [] r = "keyed-envfile" -> L(Dedup(r, ToList(b) \o ToList(o)))
     [] r = "depends_on" -> MapOver(ListToMap(b, DependsDefault), ListToMap(o, DependsDefault), path)
     [] r = "networks" -> MapOver(ListToMap(b, Null), ListToMap(o, Null), path)
     [] r = "build" -> MapOver(IF IsM(b) THEN b ELSE M1("context", b), IF IsM(o) THEN o ELSE M1("context", o), path)
@@ -140,6 +146,8 @@ DelPath(x, path) ==
 RECURSIVE DelAll(_, _)
 DelAll(x, paths) == IF paths = {} THEN x ELSE LET p == CHOOSE q \in paths : TRUE IN DelAll(DelPath(x, p), paths \ {p})
 
+\* the same below a path (extends: the base service overridden by the extending service's own attributes)
+OverrideAt(acc, doc, path) == Over(DelAll(acc, ResetPaths(doc, <<>>)), Strip(doc), path)
 \* loading acc then doc
 Override(acc, doc) == Over(DelAll(acc, ResetPaths(doc, <<>>)), Strip(doc), <<>>)
 RECURSIVE OverrideAll(_, _)
